@@ -14,9 +14,11 @@ func init() {
 		Explanation: "C10.load-postcondition: every path on which sparseFileLoader.loadChunk returns a nil (or possibly nil) error either executed done.Set(i,true) or observed done.Get(i)==true (closures given to sync.Once.Do are explored as 'runs or is skipped'); " +
 			"C10.set-after-write: done.Set is reachable only through the nil-error edge of the WriteAt into the cache file, and the bytes written come from the chunk fetched for the same index; C10.read-after-load: the cache file is read only on the nil edge of loadRange, loadRange fails when a loadChunk fails, and the FUSE read answers EIO for every error other than io.EOF; " +
 			"C10.skip-only-done-or-null: loadRange leaves out a chunk of the range only on the done-bit edge or the null-chunk edge; C10.null-skip-needs-truncate: NewSparseFile returns a usable file only after Truncate(idx.Length()) succeeded or a state file was accepted for a cache file of exactly the indexed size; " +
-			"C10.state-accept: a state bitmap is accepted only on the equal edge of a comparison of its length with a value derived from the chunk count; C10.locks: done is accessed under mu (write mode for Set/assignment), lock pairing in all loader methods.",
+			"C10.state-accept: a state bitmap is accepted only on the equal edge of a comparison of its length with a value derived from the chunk count; C10.locks: done is accessed under mu (write mode for Set/assignment), lock pairing in all loader methods. " +
+			"C10.chunks-verified (shared with C03): loadChunk writes whatever the store returns; the verifying constructors and all store back ends are checked as under C03.",
 		NotDecided: "the bytes in the cache file, arithmetic of indexRange, FUSE behaviour, concurrency beyond lock discipline.",
 		Rules: []rule{
+			{"C10.chunks-verified", "the chunk written into the cache file was verified against the requested id (shared with C03)", 16, func(c *Ctx) { c03CtorVerifies(c); c03Backends(c) }},
 			{"C10.load-postcondition", "nil return of loadChunk implies done bit set or observed", 1, c10LoadPost},
 			{"C10.set-after-write", "done.Set only behind the nil edge of WriteAt of the fetched data at the chunk's start", 2, c10SetAfterWrite},
 			{"C10.read-after-load", "cache file read only after loadRange succeeded; load errors propagate; FUSE read maps errors to EIO", 3, c10ReadAfterLoad},
